@@ -284,6 +284,7 @@ def _run_sync_execute(
                 result = func()
             else:
                 result = _call_with_timeout(func, attempt_timeout_s)
+            attempt_state.returned = True
 
             # Success path: check if result needs classification
             needs_retry, classification = should_classify_result(policy, result)
@@ -354,6 +355,10 @@ def _run_sync_execute(
         except RetryExhaustedError:
             raise
         except Exception as exc:
+            if attempt_state.returned:
+                # The operation itself returned; errors raised by callbacks while its
+                # result was being handled propagate, exactly as they do in call().
+                raise
             attempt_state.cause = "exception"
             try:
                 state.check_abort(attempt)
